@@ -87,7 +87,7 @@ def run(rep, idx, tier):
     lanes = [(dom, t, dsx) for dom, t, dsx in c.targets_matching(
         lambda t: t[0] == 'sub' and t[1] == c.parse("wb.dat_r", env))]
     t_prev = c.parse("wb.dat_r[slice((k - 1) * g, k * g)]", env)
-    t_last = c.parse("wb.dat_r[slice(last * g, (last + 1) * g)]", dict(env, last=('last', k)))
+    t_last = c.norm(c.parse("wb.dat_r[slice(last * g, (last + 1) * g)]", dict(env, last=('last', k))))
     seen_prev = seen_last = False
     for dom, t, dsx in lanes:
         if dom != "sync":
@@ -135,14 +135,8 @@ def constructor(rep, idx, ctor):
     site = ctor.fi.site
     init = ctor.fi.node
     # whitelist raise on the CSR data width
-    ok = False
-    for st in ast.walk(init):
-        if isinstance(st, ast.If) and any(isinstance(s, ast.Raise) for s in st.body):
-            t, pol = ir.split_neg(ir.norm(ir.from_ast(st.test, {})))
-            if not pol and t[0] == 'cmp' and t[1] == 'in' and t[2] == ir.parse("csr_bus.data_width") and t[3][0] in ('tuple', 'list', 'set'):
-                vals = sorted(x[1] for x in t[3][1] if x[0] == 'const')
-                ok = vals == [8, 16, 32, 64]
-    rep.check(ok, "C10.5", site, "CSR data width restricted to 8/16/32/64", "no `if csr_bus.data_width not in (8, 16, 32, 64): raise` found")
+    from .common import check_refusal
+    check_refusal(rep, "C10.5", ctor, "CSR data width restricted to 8/16/32/64", "csr_bus.data_width not in (8, 16, 32, 64)", "ValueError")
     sig = None
     for x, gen, ln in ctor.calls_named("__init__"):
         for y in ir.walk(x):
